@@ -1182,6 +1182,8 @@ def concrete_eval(ctx: Ctx, f: FunctionInfo, e: Optional[ast.AST], env: Dict[str
     if e is None or depth > 12:
         return UNKNOWN
     ev = lambda x, a=at: concrete_eval(ctx, f, x, env, a, depth + 1)  # noqa: E731
+    if ("atom", id(e)) in env:
+        return env[("atom", id(e))]  # type: ignore[index]  # a scenario assumption about exactly this sub-expression
     if isinstance(e, ast.Constant):
         return e.value
     if isinstance(e, ast.Name):
@@ -1729,6 +1731,8 @@ def explore(ctx: Ctx, f: FunctionInfo, starts: Iterable[int], env: Optional[Dict
     seen: Set[Tuple[int, frozenset, frozenset]] = set()
     first = {s for s in starts}
 
+    asm_now: Dict[int, bool] = {}
+
     def value_of(e: Optional[ast.AST], at: int, store: Dict[object, object]) -> object:
         if e is None:
             return None
@@ -1740,6 +1744,7 @@ def explore(ctx: Ctx, f: FunctionInfo, starts: Iterable[int], env: Optional[Dict
         scen.update({k: v for k, v in store.items() if isinstance(k, str) and not isinstance(v, Sym)})
         # results of helpers analysed in place, for calls nested in a larger expression (`not self._mtime(p) < cutoff`)
         scen.update({k: v for k, v in store.items() if isinstance(k, tuple) and len(k) == 2 and k[0] == "ret" and not isinstance(v, Sym)})  # type: ignore[misc]
+        scen.update({("atom", k): v for k, v in asm_now.items()})  # type: ignore[misc]  # assumed atoms inside larger expressions
         v = concrete_eval(ctx, f, e, scen, at)
         if v is UNKNOWN:
             inner = e
@@ -1762,6 +1767,8 @@ def explore(ctx: Ctx, f: FunctionInfo, starts: Iterable[int], env: Optional[Dict
 
     while work and len(seen) < max_states:
         nid, store, asm = work.pop()
+        asm_now.clear()
+        asm_now.update(asm)
         key = (nid, frozenset((repr(k), repr(v)) for k, v in store.items()), frozenset(asm.items()))
         if key in seen:
             continue
